@@ -178,3 +178,11 @@ Theorem C07_aborted_tx_invisible : forall (V : Type) (s : fstate V) (fresh0 : li
   f_read V {| f_disk := apply_writes V (f_disk V s) (t_sched V t); f_wal := f_wal V s |} id = f_read V s id.
 Proof. exact aborted_tx_invisible. Qed.
 Print Assumptions C07_aborted_tx_invisible.
+
+(* the file itself after an aborted transaction on a bounded file: truncated to exactly the end of the state the
+   transaction started from *)
+From VF Require Import Truncate TruncateProofs.
+Theorem C07_rollback_truncates_to_the_committed_end : forall metaEnd dataEnd sz ps mp n,
+  0 < ps -> rollback_truncate metaEnd dataEnd sz ps mp = Some n ->
+  n < sz /\ n = Z.max metaEnd dataEnd * ps /\ (forall id, 0 <= id < Z.max metaEnd dataEnd -> (id + 1) * ps <= n).
+Proof. exact rollback_truncate_spec. Qed.
